@@ -281,9 +281,37 @@ def witness(body, ps, state, maxn=14):
     return ["%s %s" % (body.where(p), _desc(body, p)[:80]) for p in keep]
 
 
+def _reach_any(body):
+    """nodes the path-sensitive search reaches from the entry with nothing blocked (memoised per body)"""
+    r = getattr(body, "_reach_any", None)
+    if r is None:
+        r, _ = A.reach(body, [body.entry])
+        body._reach_any = r = set(r)
+    return r
+
+
+def _vacuity(ctx, inst, body, nodes, what):
+    """a path rule about a site the search cannot reach at all would pass vacuously: report it instead (fail closed).
+    Sites that are unreachable even in the plain CFG (dead arms) are left alone."""
+    ok = True
+    pr = None
+    for n in nodes:
+        if n in _reach_any(body):
+            continue
+        if pr is None:
+            pr, _ = A.reach(body, [body.entry], sensitive=False)
+        if n in pr:
+            ctx.fail(inst, "engine", body.path, "the path search prunes every path to the site of `%s` although the CFG reaches it "
+                     "(the rule would pass vacuously)" % what, _site(body, n))
+            ok = False
+    return ok
+
+
 def dom(ctx, inst, body, a_nodes, b_nodes, what, blocked_edges=frozenset(), a_desc="A"):
     """every path entry -> each B passes some A node"""
     ok_all = True
+    if not blocked_edges:
+        _vacuity(ctx, inst, body, b_nodes, what)
     for bnode in b_nodes:
         r, ps = A.reach(body, [body.entry], blocked_nodes=set(a_nodes) - {bnode}, blocked_edges=blocked_edges)
         good = bnode not in r or bnode in a_nodes
@@ -385,6 +413,7 @@ def guard(ctx, inst, body, s_nodes, edges, what, require_edges=True):
     ps = A.PathSearch(body)
     ps.run([body.entry], mark_edges=frozenset(edges), unmark_nodes=frozenset(unmark))
     ok_all = True
+    _vacuity(ctx, inst, body, s_nodes, what)
     for s in s_nodes:
         st = ps.reached_unmarked.get(s)
         good = st is None
